@@ -687,14 +687,16 @@ class MarkdownNormalizer(Renderer):
                 normalized_delimiter = "---"
             normalized_delimiters.append(normalized_delimiter)
 
-        lines.append(f"| {' | '.join(normalized_delimiters)} |\n")
+        lines.append(f"{self._prefix}| {' | '.join(normalized_delimiters)} |\n")
         for row in body:
             lines.append(self.render(row))
         return "".join(lines)
 
     def render_table_row(self, element: gfm_elements.TableRow) -> str:
         """Render a row within a GFM table."""
-        return f"| {' | '.join(self.render(cell) for cell in element.children)} |\n"
+        result = f"{self._prefix}| {' | '.join(self.render(cell) for cell in element.children)} |\n"
+        self._prefix = self._second_prefix
+        return result
 
     def render_table_cell(self, element: gfm_elements.TableCell) -> str:
         """Render a cell within a GFM table row."""
